@@ -482,15 +482,15 @@ headers, kinds of statements and the names they bind) they had when the model wa
 loop, early exit or rebinding has been added that the model does not describe -/
 theorem modelled_functions_have_the_transcribed_shape :
     MlVerif.Gen.C09.shapeFit =
-      "replace=;if(isinstance(self.criterion, str)){if(self.criterion == 'mselin'){self.criterion=}else{if(self.criterion == 'simple'){self.criterion=}}};try{call fit}finally{self.criterion=};if(self.criterion == 'mselin'){call _fit_reglin}else{if(hasattr(self, 'leaves_index_')){del self.leaves_index_};if(hasattr(self, 'leaves_mapping_')){del self.leaves_mapping_};if(hasattr(self, 'betas_')){del self.betas_}};return" ∧
+      "sig(self, X, y, sample_weight=None, check_input=True)|replace=;if(isinstance(self.criterion, str)){if(self.criterion == 'mselin'){self.criterion=}else{if(self.criterion == 'simple'){self.criterion=}}};try{call fit}finally{self.criterion=};if(self.criterion == 'mselin'){call _fit_reglin}else{if(hasattr(self, 'leaves_index_')){del self.leaves_index_};if(hasattr(self, 'leaves_mapping_')){del self.leaves_mapping_};if(hasattr(self, 'betas_')){del self.betas_}};return" ∧
     MlVerif.Gen.C09.shapeFitReglin =
-      "tree=;self.leaves_index_=;if(tree.n_leaves != len(self.leaves_index_)){raise};pred_leaves=;self.leaves_mapping_=;self.betas_=;for((i,_) in enumerate(self.leaves_index_)){ind=;xs=;ys=;if(len(ys.shape) == 1){ys=};ys=;ws=;dec=;call node_beta}" ∧
+      "sig(self, X, y, sample_weight)|tree=;self.leaves_index_=;if(tree.n_leaves != len(self.leaves_index_)){raise};pred_leaves=;self.leaves_mapping_=;self.betas_=;for((i,_) in enumerate(self.leaves_index_)){ind=;xs=;ys=;if(len(ys.shape) == 1){ys=};ys=;ws=;dec=;call node_beta}" ∧
     MlVerif.Gen.C09.shapePredict =
-      "if(self.criterion == 'mselin'){return};return" ∧
+      "sig(self, X, check_input=True)|if(self.criterion == 'mselin'){return};return" ∧
     MlVerif.Gen.C09.shapePredictReglin =
-      "leaves=;pred=;Xone=;for(i in range(0, X.shape[0])){li=;pred[]=};return" ∧
+      "sig(self, X, check_input=True)|leaves=;pred=;Xone=;for(i in range(0, X.shape[0])){li=;pred[]=};return" ∧
     MlVerif.Gen.C09.shapePredictLeaves =
-      "leaves=;leaves=;mat=;res=;return" :=
+      "sig(self, X)|leaves=;leaves=;mat=;res=;return" :=
   ⟨rfl, rfl, rfl, rfl, rfl⟩
 
 /-! ### non-vacuity: concrete instances meeting the hypotheses -/
